@@ -379,6 +379,7 @@ fn run_one(ctx: &RunCtx, max_len: usize) -> RunOut {
         }
     }
     let log = h.log();
+    crate::cross::stash(&log, cup);
     let mut out = RunOut::new(format!("apps{n_apps}-len{}", steps.len()), any_change, trace::digest(&log));
     if ctx.want_trace {
         out.trace = Some(json!({"apps": n_apps, "cup": cup, "steps": steps, "log": trace::trace_json(&log)}));
@@ -387,6 +388,14 @@ fn run_one(ctx: &RunCtx, max_len: usize) -> RunOut {
         Some((k, m)) => out.fail(k, m),
         None => out,
     }
+}
+
+/// This module's history exploration (length 3, one non-default field choice) for sibling oracles.
+pub fn run_for_cross(ctx: &RunCtx) -> RunOut {
+    run_one(ctx, 3)
+}
+pub fn cross_cfg(name: &str) -> Cfg {
+    Cfg::new(name).dev(0).free(&["step", "n_apps", "cup", "server_without_cohorts"])
 }
 
 fn parts(tier: Tier) -> Vec<PartDef> {
